@@ -16,7 +16,7 @@ JOBS = int(os.environ.get("VERIF_JOBS", "16"))
 
 SKEL_EXCLUDE = {"converter-example.c"}
 SAN = {
-    "asan": ["-O1", "-g", "-fsanitize=address,undefined", "-fno-sanitize=nonnull-attribute", "-fno-sanitize-recover=all", "-fno-omit-frame-pointer"],   # nonnull-attribute: see KNOWN_FINDINGS F51
+    "asan": ["-O1", "-g", "-fsanitize=address,undefined", "-fno-sanitize-recover=all", "-fno-omit-frame-pointer"],
     "tsan": ["-O1", "-g", "-fsanitize=thread"],
     "plain": ["-O1", "-g"],
 }
